@@ -105,12 +105,12 @@ Theorem c07_evicted_session_notified : forall f x c o who unsub skip,
 Proof. exact (ban_step_told_c07f dr nr sm). Qed.
 
 (* Losing J detaches: at EVERY step of EVERY history (any fault plan, from any state whose attached sessions
-   belong to cached subscribers), for every request other than {sub}: a user whose effective mode
+   belong to cached subscribers), for EVERY request: a user whose effective mode
    (want & given of the cache entry) had J before the request and lacks it afterwards - ban by an approver,
-   self-ban, {del sub}, {leave unsub}: entry gone - has NO attached session afterwards, foreground or
-   background.  ({sub}: c07_selfban_by_sub_detaches_every_session.) *)
+   self-ban through {set sub} or {sub set.sub.mode}, {del sub}, {leave unsub}: entry gone - has NO attached
+   session afterwards, foreground or background. *)
 Theorem c07_losing_join_detaches_every_session : forall x h f o c c',
-  inv_sm x -> ca (fst (run dr nr sm x h)) = Some c -> not_sub_c07f o = true ->
+  inv_sm x -> ca (fst (run dr nr sm x h)) = Some c ->
   ca (fst (step dr nr sm f (fst (run dr nr sm x h)) o)) = Some c' ->
   forall v, effj_c07f c v = true -> effj_c07f c' v = false -> no_sess c' v.
 Proof. exact (run_step_losej_c07f dr nr sm). Qed.
@@ -156,7 +156,7 @@ Example c07_ex_ban_background_only :
 Proof. exact bf_example_c07f. Qed.
 Example c07_ex_losing_join :
   let x3 := fst (run bf_dr_c07f bf_nr_c07f bf_sm_c07f bf_x_c07f bf_h_c07f) in
-  inv_sm bf_x_c07f /\ not_sub_c07f bf_ban_c07f = true /\
+  inv_sm bf_x_c07f /\
   exists c c', ca x3 = Some c /\ ca (fst (step bf_dr_c07f bf_nr_c07f bf_sm_c07f NoFault x3 bf_ban_c07f)) = Some c' /\
     effj_c07f c 2%N = true /\ effj_c07f c' 2%N = false.
 Proof. exact bf_losej_example_c07f. Qed.
